@@ -106,12 +106,13 @@ def execute(api: str, kind: str, chunks: t.List[t.Optional[bytes]], budgeted: bo
     """-> (status, value, eof_reads)   status in ok|exc|spin|blocks|budget|deadlock"""
     replies, target = canned(kind)
     peer = Peer(replies, target, chunks)
-    with transport.network(peer) as hub, secctx.scripted_client(_ctx_factory):
+    with transport.network(peer, defer=(api == "async")) as hub, secctx.scripted_client(_ctx_factory):
         try:
             if api == "sync":
                 v = budget.run(STEP_LIMIT, drive_sync, kind)[0] if budgeted else drive_sync(kind)
             else:
-                v = budget.run(STEP_LIMIT, vloop.run, drive_async(kind))[0] if budgeted else vloop.run(drive_async(kind))
+                # one segment per idle point of the loop: the client really sees the reply arrive chunk by chunk
+                v = budget.run(STEP_LIMIT, vloop.run, drive_async(kind), hub.release_chunk)[0] if budgeted else vloop.run(drive_async(kind), hub.release_chunk)
             st = "ok"
         except transport.Spin as e:
             st, v = "spin", repr(e)
@@ -148,7 +149,7 @@ def run_seq(api: str, chunked: t.List[t.List[t.Optional[bytes]]]):
 
     peer = SeqPeer(chunked)
     out: t.List[t.Any] = []
-    with transport.network(peer):
+    with transport.network(peer, defer=(api == "async")) as hub:
         try:
             if api == "sync":
                 c = create_rpc_connection("dc", 135)
@@ -173,7 +174,7 @@ def run_seq(api: str, chunked: t.List[t.List[t.Optional[bytes]]]):
                     finally:
                         await c.close()
 
-                vloop.run(go())
+                vloop.run(go(), hub.release_chunk)
         except (transport.Spin, transport.BlocksForever, vloop.Deadlock) as e:
             out.append(("blocks", repr(e)))
     return out
